@@ -6,6 +6,9 @@ import os
 V = os.path.dirname(os.path.dirname(os.path.abspath(__file__)))
 
 CLAIMS = {
+ "C02": ("Structural clauses only: all 960 coordinate/algorithm configurations build with every dispatch macro resolving to a declared function; no status dropped in elliptic_curve.h; bn/point locals and precompute-table elements initialised before use (index agreement); exceptional-case tests (x-equal, y-zero, operand at infinity, scalar 0) guard the general formulas with the right polarity; the 32 built-in curve records are arithmetically consistent (python big integers: p,n prime, non-singular, G on curve, nG=O, flag => a=p-3). Correctness of the group-law formulas and agreement between algorithms are NOT decided.",
+         "Trusts clang 14 front end/CFG, must-init dataflow, python big-integer arithmetic with Miller-Rabin (12 bases).",
+         "static analysis: configuration compile witnesses, typestate dataflow, guard dominance, constant-table arithmetic"),
  "C03": ("Structural clauses only: no bn_/ec_/ecdsa_ status dropped in ecdsa.h (a failed internal computation cannot be followed by success), verifier/signer success paths dominated by range/zero/infinity/equality tests with correct polarity, switch(curve->algo) exhaustive. Standard conformance of the accept set is NOT decided.",
          "Trusts clang 14 CFG, the extractor, and the derived status-function set (0/errno convention).",
          "static analysis: status-discipline dataflow + guard dominance over clang CFG"),
